@@ -144,6 +144,26 @@ def check(run, prog, tier):
                 for s_ in subterms(e.result))
     run.ob("V1", f"{ns.qual}:iterates-requested-events", it_ok, loc(ns), "one notification per requested event")
 
+    # per-destination session counter: transition table and single-writer rule of C08 (a counter that is reset or
+    # released for a destination restarts at 1 in the middle of that destination's stream)
+    from .. import report
+    from . import C08
+    sub8 = report.subrun(C08, "C08", prog, tier, run.seed)
+    n8 = 0
+    scan8 = Scan(prog)
+    for o in sub8.obs:
+        if o.rule == "Q2" and not o.ok:
+            # an additional writer of the counter matters to notifications only if the service side can reach it
+            writer = o.construct.split(":")[0]
+            reach = {fi.module.short for fi, r, e in scan8.callers_of(writer)}
+            if "service" not in reach:
+                continue
+        if o.rule in ("Q1", "Q2") or (o.rule == "Q3" and "_notify_single" in o.construct):
+            n8 += 1
+            run.ob("V1", o.construct, o.ok, o.loc, o.msg, o.detail, o.nontrivial)
+    run.floor("V1-session-counter", n8, 4)
+    run.abstract_cases += sub8.abstract_cases
+
     # ------------------------------------------------------------------ V2
     scan = Scan(prog)
     writers = {}
